@@ -405,6 +405,12 @@ func c13Uniq(c *Ctx, r *Report) {
 					continue
 				}
 				okDup = hasGuard(b, func(g guard) bool {
+					// `if m[k] == nil`, or the comma-ok form `if _, taken := m[k]; !taken`
+					if ex, isEx := g.cond.(*ssa.Extract); isEx && ex.Index == 1 && !g.val {
+						if lk, isLk := ex.Tuple.(*ssa.Lookup); isLk && lk.CommaOk {
+							return sameVal(lk.X, mu.Map) && sameVal(lk.Index, mu.Key)
+						}
+					}
 					v, eq, ok := nilCmp(g.cond)
 					if !ok || eq != g.val {
 						return false
@@ -661,11 +667,39 @@ func c13DirUse(c *Ctx, r *Report, vreach map[*ssa.Function]bool) {
 			if len(args) != 3 {
 				continue
 			}
-			// holder: the argument of Locate
-			if lc, ok := args[1].(*ssa.Call); ok && lc.Call.StaticCallee() == locate && len(lc.Call.Args) == 1 {
-				h := stripIface(lc.Call.Args[0])
-				got[derefNamed(h.Type())] = ci.Pos()
+			// holder: the argument of Locate; a location handed in as a parameter is followed to the call sites
+			var holders func(v ssa.Value, in *ssa.Function, depth int)
+			holders = func(v ssa.Value, in *ssa.Function, depth int) {
+				if lc, ok := v.(*ssa.Call); ok && lc.Call.StaticCallee() == locate && len(lc.Call.Args) == 1 {
+					h := stripIface(lc.Call.Args[0])
+					got[derefNamed(h.Type())] = ci.Pos()
+					return
+				}
+				pr, ok := v.(*ssa.Parameter)
+				if !ok || depth > 2 {
+					return
+				}
+				idx := -1
+				for i, p := range in.Params {
+					if p == pr {
+						idx = i
+					}
+				}
+				if idx < 0 {
+					return
+				}
+				for g := range vreach {
+					if !c.inPkg(g) {
+						continue
+					}
+					for _, cs := range callsIn(g) {
+						if cs.Common().StaticCallee() == in && idx < len(cs.Common().Args) {
+							holders(cs.Common().Args[idx], g, depth+1)
+						}
+					}
+				}
 			}
+			holders(args[1], f, 0)
 		}
 	}
 	r.Tables["directive_use_validation_sites"] = sortedKeys(got)
